@@ -1066,7 +1066,7 @@ uint64_t bufr_missing_ivalue( int nbits )
       msng_values[0] = 0;
       for (i = 1; i <= 64 ; i++)
          {
-         msng_values[i] = (1ULL << i) - 1L;
+         msng_values[i] = (i < 64) ? (1ULL << i) - 1L : ~0ULL;
          }
       initialized=1;
       }
